@@ -1,44 +1,60 @@
-def ob(fn, kind=None, unwind=20, timeout=300, bounds='', **kw):
-    d = {'fn': fn if kind is None else '%s_%d' % (fn, kind), 'unwind': unwind, 'timeout': timeout, 'bounds': bounds}
+def ob(fn, unwind=22, timeout=900, bounds='', **kw):
+    d = {'fn': fn, 'unwind': unwind, 'timeout': timeout, 'bounds': bounds}
     d.update(kw)
     return d
-PREFIX = ['-r', '-s', '-g', '-t', '-sg', '-xg', '-xsg', '-n', '-sn', '-xn', '-xsn', '-st', '-xt', '-xst', '-o', '-k', '-p', 'TEST(', 'IGNORE_TEST(']
 FLAGS = ['-h', '-v', '-vv', '-c', '-p', '-b', '-lg', '-ln', '-ll', '-ri', '-f', '-e', '-ci']
-FILTERS = ['-g', '-sg', '-xg', '-xsg', '-n', '-sn', '-xn', '-xsn']
-DOTTED = ['-t', '-st', '-xt', '-xst']
-PAIR = ['-g <v>', '-xsn <v>', '-r<digit>', '-s<digit>', '-k <v>', '-r', '-s']
-ID2 = 'value: identifier-like ([A-Za-z0-9_]) 1..2 characters, attached or separated form symbolic'
+KNAME = ['-r', '-s', '-g', '-sg', '-xg', '-xsg', '-n', '-sn', '-xn', '-xsn', '-t', '-st', '-xt', '-xst', 'TEST(', 'IGNORE_TEST(', '-o', '-k']
+E2EVAL = ['12', '7'] + ['aB'] * 8 + ['aB.c_'] * 4 + ['aB, c_)'] * 2 + ['junit', 'pk']
+NAMES = ['-g', '-sg', '-xsg', 'TEST(', 'IGNORE_TEST(']
 PROBE = 'probe test group and name: any bytes, 0..2 characters each'
+NEXT = {2: 'no next argument', 3: 'next argument any 0..2 bytes'}
 KF = ['-DKF_C12_1']
+HANDLERS = ['_ZN20CommandLineArguments14setRepeatCountEiPKPKcRi', '_ZN20CommandLineArguments10setShuffleEiPKPKcRi',
+            '_ZN20CommandLineArguments14addGroupFilterEiPKPKcRi', '_ZN20CommandLineArguments20addStrictGroupFilterEiPKPKcRi',
+            '_ZN20CommandLineArguments21addExcludeGroupFilterEiPKPKcRi', '_ZN20CommandLineArguments27addExcludeStrictGroupFilterEiPKPKcRi',
+            '_ZN20CommandLineArguments13addNameFilterEiPKPKcRi', '_ZN20CommandLineArguments19addStrictNameFilterEiPKPKcRi',
+            '_ZN20CommandLineArguments20addExcludeNameFilterEiPKPKcRi', '_ZN20CommandLineArguments26addExcludeStrictNameFilterEiPKPKcRi',
+            '_ZN20CommandLineArguments21addGroupDotNameFilterEiPKPKcRiRK12SimpleStringbb', '_ZN20CommandLineArguments32addTestToRunBasedOnVerboseOutputEiPKPKcRiS1_',
+            '_ZN20CommandLineArguments13setOutputTypeEiPKPKcRi', '_ZN20CommandLineArguments14setPackageNameEiPKPKcRi']
+# string loops of the code under test: their true bound is the longest text of the obligation, far below the harness' own loops
+HOT = ['_ZN12SimpleString6StrLenEPKc.0', '_ZN12SimpleString7StrNCpyEPcPKcm.0', '_ZN12SimpleString7StrNCmpEPKcS1_m.0', '_ZN12SimpleString6StrStrEPKcS1_.0',
+       '_ZN12SimpleString6StrCmpEPKcS1_.0', '_ZNK12SimpleString5countERKS_.0', '_ZNK12SimpleString5splitERKS_R22SimpleStringCollection.0',
+       '_ZN22SimpleStringCollection8allocateEm.1', '_ZN22SimpleStringCollectionD2Ev.0', '_ZL8copyTextRK12SimpleStringPc.0', '_ZNK12SimpleString8findFromEmc.0']
+PIECES = ['_ZNK12SimpleString5countERKS_.0:5', '_ZNK12SimpleString5splitERKS_R22SimpleStringCollection.0:5', '_ZN22SimpleStringCollection8allocateEm.1:5', '_ZN22SimpleStringCollectionD2Ev.0:5']
+def real(n):
+    return [l + ':%d' % n for l in HOT]
 SPEC = {
     'property': 'C12',
     'functions_of_interest': ['CommandLineArguments', 'TestFilter', 'SimpleString9subString', 'SimpleString17subStringFromTill', 'SimpleString5split', 'AtoI', 'AtoU', 'shouldRun'],
     'assumptions': [
+        'decomposition: group dispatch runs parse() with the 14 option handlers replaced by recording stubs in the solver world (the handler chosen and its argument index are compared with a reference table written from the usage text); group cl runs every handler directly on all argument bytes and the whole parser end to end on concrete representative values',
         'argv[0] is a fixed program name; argv[argc] is NULL and entries beyond it are poisoned pointers, so any use of them is reported',
+        'argc and the argument pointers are concrete per call site (attached and separated forms are separate call sites of one obligation); string contents are symbolic',
         'plugin = NullTestPlugin (accepts no -p<...> argument); time seam = arbitrary 64-bit millisecond value',
-        'string allocator = default new[]/delete[] over the fixed-capacity heap model with requested-size red zones (ll2c --heapcheck)',
-        'open finding KF_C12_1 (-xt/-xst exclude tests of which only the group or only the name matches) is excluded from harness_dotted_2/3 by -DKF_C12_1 and demonstrated by finding_exclude_dotted in h12.c',
+        'heap model: fixed-capacity zero-filled blocks with requested-size red zones (harness/C12/zheap.h): accesses outside the requested size are reported, a missing terminator inside a block is not visible here (C13 checks the string operations on uninitialised blocks)',
+        'open finding KF_C12_1 (-xt/-xst exclude tests of which only the group or only the name matches) is excluded by -DKF_C12_1 and demonstrated by finding_exclude_dotted in h12.c; finding_two_excludes (two -xg cancel each other) is outside every obligation (no obligation has two filters of one kind)',
     ],
     'groups': [{
+        'name': 'dispatch', 'wrapper': 'w12.cpp', 'harness': 'h12.c', 'config': {'stubs': HANDLERS}, 'defines': KF + ['-DDISPATCH_STUBBED'],
+        'obligations':
+            [ob('harness_dispatch_%d' % k, bounds='argc = %d; argv[1] any 0..5 bytes, argv[2] any 0..3 bytes; bool handlers answer true or false' % k, timeout=1800) for k in range(4)] +
+            [ob('harness_dispatch_%d' % k, bounds='argc = %d; argv[1] any 0..6 bytes, argv[2] any 0..4 bytes; bool handlers answer true or false' % k, defines=['-DD1MAX=6', '-DD2MAX=4'], timeout=7200, tier='thorough') for k in (2, 3)] +
+            [ob('harness_dispatch_near_%d' % k, bounds='argc = 2; argv[1] = "%s" without its last character, then any 0..2 bytes' % KNAME[k], timeout=1800, tier=('both' if k in (14, 15) else 'thorough')) for k in range(18)],
+    }, {
         'name': 'cl', 'wrapper': 'w12.cpp', 'harness': 'h12.c', 'config': {}, 'defines': KF,
         'obligations':
-            # H1 safety
-            [ob('harness_safety', bounds='argc 0..3, argv[1] any 0..3 bytes, argv[2] any 0..2 bytes', timeout=900, tier='quick'),
-             ob('harness_safety', bounds='argc 0..3, argv[1] any 0..4 bytes, argv[2] any 0..3 bytes', defines=['-DA1MAX=4', '-DA2MAX=3'], timeout=7200, tier='thorough')] +
-            [ob('harness_safety_prefixed', k, bounds='argc 0..3, argv[1] = "%s" followed by any 0..3 bytes, argv[2] any 0..2 bytes' % PREFIX[k], timeout=900, unwind=20) for k in range(19)] +
-            # H3 meaning
-            [ob('harness_flag', k, bounds='argv = {%s}; ' % FLAGS[k] + PROBE) for k in range(13)] +
-            [ob('harness_number', k, bounds=['argv = {-r}', 'argv = {-r<#>} or {-r, <#>}, # = 1..2 decimal digits, not zero', 'argv = {-s}, any clock value', 'argv = {-s<seed>} or {-s, <seed>}, seed = 1..2 decimal digits'][k]) for k in range(4)] +
-            [ob('harness_filter', k, bounds='option %s; ' % FILTERS[k] + ID2 + '; ' + PROBE) for k in range(8)] +
-            [ob('harness_dotted', k, bounds='option %s <group>.<name>; group and name identifier-like 1..2 characters each, attached or separated; ' % DOTTED[k] + PROBE + ('; [KF_C12_1: probe matches both or neither]' if k >= 2 else ''), timeout=600) for k in range(4)] +
-            [ob('harness_testform', k, bounds='argv = {"%sTEST(<group>, <name>)"}; group and name identifier-like 1..2 characters; ' % ('IGNORE_' if k else '') + PROBE, unwind=24, timeout=600) for k in range(2)] +
-            [ob('harness_output', k, bounds=('-o%s attached or separated' % ['normal', 'eclipse', 'junit', 'teamcity'][k]) if k < 4 else '-k <packageName>; ' + ID2) for k in range(5)] +
-            [ob('harness_pair', k, bounds='two options in symbolic order: %s (value identifier-like 1..2 characters / one non-zero digit, attached or separated) and one of -v -c -b -ri -p -vv' % PAIR[k]) for k in range(7)] +
-            # H2 kernels
-            [ob('harness_param_field', bounds='argument any 0..6 bytes, next argument any 0..2 bytes present or not, option name one of -g -sg -xsg TEST( IGNORE_TEST(', unwind=20),
-             ob('harness_test_slicing', bounds='"TEST(" / "IGNORE_TEST(" followed by any 0..6 bytes', unwind=24, timeout=900),
-             ob('harness_group_dot_name', bounds='-t value any 1..6 bytes; strict/exclude symbolic', unwind=20, timeout=900),
-             ob('harness_numbers_long', bounds='-r / -s with 1..4 decimal digits (value not zero), attached or separated'),
-             ob('harness_filter_match', bounds='filter any 0..3 bytes, name any 0..4 bytes, strict/invert symbolic')],
+            [ob('harness_handler_filter_%d_%d' % (k, ac), defines=['-DTAILMAX=6'], tier='thorough', timeout=3600, bounds='handler of %s on argument "%s" + any 0..6 bytes, %s; ' % (KNAME[k], KNAME[k], NEXT[ac]) + PROBE) for k in range(2, 10) for ac in (2, 3)] +
+            [ob('harness_handler_filter_%d_%d' % (k, ac), bounds='handler of %s on argument "%s" + any 0..4 bytes, %s; ' % (KNAME[k], KNAME[k], NEXT[ac]) + PROBE) for k in range(2, 10) for ac in (2, 3)] +
+            [ob('harness_handler_number_%d_%d' % (k, ac), bounds='handler of %s on argument "%s" + any 0..4 bytes, %s; any clock value' % (KNAME[k], KNAME[k], NEXT[ac]), optional_witness=['documented shape']) for k in range(2) for ac in (2, 3)] +
+            [ob('harness_handler_output_%d' % ac, bounds='handler of -o on argument "-o" + any 0..8 bytes, %s' % ('no next argument' if ac == 2 else 'next argument any 0..8 bytes'), timeout=1800) for ac in (2, 3)] +
+            [ob('harness_handler_package_%d' % ac, bounds='handler of -k on argument "-k" + any 0..4 bytes, %s' % NEXT[ac]) for ac in (2, 3)] +
+            [ob('harness_handler_dotted_%d_%d' % (k, sh), bounds='handler of %s on argument "%s" + %s; ' % (KNAME[k], KNAME[k], ['any 1..2 bytes', 'any byte, a dot, any byte or nothing'][sh]) + PROBE + ('; [KF_C12_1: probe matches both or neither]' if k >= 12 else ''),
+                timeout=3600, unwindset=real(8) + PIECES, solver='kissat', optional_witness=(['accepted'] if sh == 0 else []), tier='thorough') for k in range(10, 14) for sh in (0, 1)] +
+            [ob('harness_handler_testform_%d' % k, bounds='handler of "%sTEST(" on that text followed by any 1..6 bytes; ' % ('IGNORE_' if k else '') + PROBE, timeout=1800) for k in range(2)] +
+            [ob('harness_param_field_%d_%d' % (k, ac), bounds='getParameterField: argument = "%s" (or cut by one character) followed by any 0..6 bytes, %s' % (NAMES[k], NEXT[ac])) for k in range(5) for ac in (2, 3)] +
+            [ob('harness_filter_match', bounds='TestFilter::match: filter any 0..3 bytes, name any 0..4 bytes, strict/invert symbolic')] +
+            [ob('harness_flag_%d' % k, bounds='whole parser, argv = {%s}; ' % FLAGS[k] + PROBE) for k in range(13)] +
+            [ob('harness_e2e_%d' % k, bounds='whole parser, option %s with the value "%s", attached or separated, alone or with -v before or after it; ' % (KNAME[k], E2EVAL[k]) + PROBE + ('; [KF_C12_1]' if k in (12, 13) else '')) for k in range(18)] +
+            [ob('harness_e2e_bare_%d' % k, bounds='whole parser, argv = {%s, -c} in either order, any clock value' % ['-r', '-s'][k]) for k in range(2)],
     }],
 }
